@@ -37,6 +37,20 @@ def _gen_one(a):
     p = os.path.join(outdir, "f%05d.c3d" % idx)
     with open(p, "wb") as f:
         f.write(b)
+    if idx % 3 == 0:
+        # a decoy the driver loads first in the same process: same shape (as many points, channels, frames), every label and value
+        # different.  What is then loaded from the real file must not depend on it.
+        import copy
+        d = copy.deepcopy(content)
+        for q in d["params"]:
+            if q["name"] in (b"LABELS", b"DESCRIPTIONS", b"UNITS") and q["type"] == -1:
+                q["values"] = [bytes(reversed(v)) if len(set(v)) > 1 else bytes((c ^ 1) if c > 32 else c for c in v) for v in q["values"]]
+        d["frames"] = [([tuple((w ^ 0x00400000) & 0xFFFFFFFF for w in pt) for pt in pts], [[w ^ 0x00010000 for w in sf] for sf in an]) for pts, an in d["frames"]]
+        try:
+            with open(p + ".decoy", "wb") as f:
+                f.write(c3dref.encode(d, {}))
+        except Exception:
+            pass
     return p, meta
 
 
@@ -110,7 +124,7 @@ def run_c02(tier, t0):
                 viols.append(dict(prop="C02", key=key, detail="%s variants=%s shape=%s: %s" % (os.path.basename(paths[i]), m["variants"], m.get("shape"), detail), case=i, files=[paths[i]], log=os.path.join(out, "case_%d.log" % i)))
         samples = [dict(file=os.path.basename(paths[i]), variants=metas[i]["variants"], shape=metas[i].get("shape"), layout=metas[i].get("layout"), result=res.get(i, "")[:120]) for i in (0, 1, 2, 3, len(paths) - 1)]
         cov = dict(evaluations=len(paths), distinct_nontrivial=len(shapes), rule="one well-formed file per case from the spec-level encoder (layout variants alone and combined x content shapes) plus the 3 vendor files; distinct = distinct (shape, layout) descriptors; every file is loaded by the library (ASan build, one process each) and the snapshot compared field by field with the independent decoder",
-                   samples=samples, files_compared=compared, layout_variant_counts=dict(variants), child_end_status=dict(R.status),
+                   samples=samples, files_compared=compared, same_shape_decoy_loaded_first_in_the_process=R.cnt.get("decoy_loaded_first", 0), layout_variant_counts=dict(variants), child_end_status=dict(R.status),
                    recoverable_ub_reports=dict(R.ub.most_common(6)), codec_selftest="decode(encode(x))==x on 120 cases; vendor files decode with exact pointers")
         inconc = None if compared >= 0.9 * len(paths) else "only %d of %d files were compared" % (compared, len(paths))
         return C.finish("C02", tier, "exploration", cov, viols, t0, replay_info=lambda v: dict(mode="loaddump", flavour="asan", note="file copied next to this json"),
@@ -347,7 +361,7 @@ def run_c04(tier, t0):
                 viols.append(dict(prop="C04", key="file2_vs_generation2/" + key, detail="%s: %s" % (os.path.basename(paths[i]), detail), case=i, files=[paths[i]]))
         samples = [dict(file=os.path.basename(paths[i]), variants=metas[i]["variants"], shape=metas[i].get("shape"), result=res.get(i, "")[:100]) for i in (0, 1, 2, len(paths) - 1)]
         cov = dict(evaluations=len(paths), distinct_nontrivial=len(shapes), rule="one well-formed input per case (encoder corpus + 3 vendor files); each is loaded, saved, reloaded (%d generations); generation 1 vs later generations compared on content, successive saved files compared byte for byte; distinct = distinct (shape, layout) descriptors of inputs that completed all generations" % gens,
-                   samples=samples, completed_all_generations=okc, generations=gens, file2_decoded_and_compared_with_generation2=crossed, layout_variant_counts=dict(variants), child_end_status=dict(R.status))
+                   samples=samples, completed_all_generations=okc, generations=gens, file2_decoded_and_compared_with_generation2=crossed, same_shape_decoy_loaded_first_in_the_process=R.cnt.get("decoy_loaded_first", 0), repeated_save_onto_longer_existing_file=len(paths) // 2, layout_variant_counts=dict(variants), child_end_status=dict(R.status))
         inconc = None if okc >= 0.9 * len(paths) else "only %d of %d inputs completed" % (okc, len(paths))
         return C.finish("C04", tier, "exploration", cov, viols, t0, replay_info=lambda v: dict(mode="gens", flavour="asan", args=["--gens", str(gens)]),
                         assumptions=["inputs are well-formed by construction (reference encoder) or vendor files of the repository"], inconclusive=inconc)
